@@ -33,6 +33,8 @@ func init() {
 			{ID: "R07h", Floor: 1, Doc: "InsertionIndex.GetAll offers every record with the key's digest (= R03g)", Run: ruleR03g},
 			{ID: "R07f", Floor: 1, Doc: "index generation loads the index once (= R03h)", Run: ruleR03h},
 			{ID: "R07d", Floor: 2 + 1, Doc: "key flattening polarity in both AllKeysChan; every scanned key is sent", Run: ruleR07d},
+			{ID: "R07k", Floor: 3, Doc: "the sorted index is searched and read in the layout it was written in, with the whole-digest comparison (= R03i)", Run: ruleR03i},
+			{ID: "R07l", Floor: 2, Doc: "a generated index records true section offsets (= R03b)", Run: ruleR03b},
 		},
 	})
 }
